@@ -563,17 +563,40 @@ class PipeWorld:
             # what FSM.load does when the pipeline (re)loads new software:
             # tell every waiting worker, clear the farm, adopt the revision,
             # rebuild the schedule
+            # The body of the real dawgie.pl.state.FSM.load runs (what it does
+            # to the farm, in its order); its background step (_pipeline: scan,
+            # version tables, schedule.build) is the harness's rebuild.
+            import twisted.internet.defer
+            import twisted.internet.threads
+            import dawgie.pl.state as state
             was = self.fsm.active
             self.fsm.active = False
             self.obs.append(('reload-workers', len(farm._workers)))
-            farm.notify_all()
+            world = self
+
+            class LoadShim:
+                _FSM__doctest = False
+                transitioning = None
+
+                def _pipeline(self, *a, **k):
+                    world.collect()
+                    dawgie.context.git_rev = rev
+                    world.inflight = []
+                    schedule.build(world.factories, ({}, {}, {}), ({}, {}, {}, {}))
+                    world.nodes = {}
+                    for root in schedule.ae.at:
+                        for n in root.iter():
+                            world.nodes[n.tag] = n
+
+                def contemplation_trigger(self):
+                    return None
+
+            saved = twisted.internet.threads.deferToThread
+            twisted.internet.threads.deferToThread = \
+                lambda fn, *a, **k: twisted.internet.defer.succeed(fn(*a, **k))
+            try:
+                state.FSM.load(LoadShim())
+            finally:
+                twisted.internet.threads.deferToThread = saved
             self.collect()
-            farm.clear()
-            dawgie.context.git_rev = rev
-            self.inflight = []
-            schedule.build(self.factories, ({}, {}, {}), ({}, {}, {}, {}))
-            self.nodes = {}
-            for root in schedule.ae.at:
-                for n in root.iter():
-                    self.nodes[n.tag] = n
             self.fsm.active = True
